@@ -8,7 +8,7 @@ from kt.kt import Raised, Unsupported, is_sym, to_real
 from kt import models as MD
 
 CURRENT = {'rounding': decimal.ROUND_HALF_EVEN, 'prec': 28}
-ADJ_MAX = 25          # Decimal.adjusted() is forked exactly for exponents 16..ADJ_MAX; obligations bound |q| < 10^(ADJ_MAX+1)
+ADJ_MAX = 60          # Decimal.adjusted() is forked exactly for exponents 16..ADJ_MAX; obligations bound |q| < 10^(ADJ_MAX+1)
 
 
 def zfloor(x):
